@@ -290,7 +290,7 @@ def fresh_cases(rng, tier, pc):
         c = alts[rng.randrange(len(alts))]
         first = pre[i % len(pre)]
         inner = c.lines[0]
-        out.append(Case(["fresh impl_text,impl_durtext %s %s" % (enc(first), enc(inner))], ["fresh-process", "after:" + first.split()[2:5][2]],
+        out.append(Case(["newproc impl_text,impl_durtext %s %s" % (enc(first), enc(inner))], ["fresh-process", "after:" + first.split()[2:5][2]],
                         kind="fresh", text=c.meta["text"], inner=inner, expect=c.meta["expect"], first=first))
     return out
 
